@@ -6,8 +6,9 @@ Results: /verif/seeded/<Cxx>-<K>/{patch.diff, demo.sh, meta.json}"""
 import json, os, shutil, subprocess, sys, time
 
 SRC = sys.argv[1]
-ONLY = sys.argv[2:]
-EV = "/tmp/mutev"
+ONLY = [a for a in sys.argv[2:] if not a.startswith("--")]
+EV = os.environ.get("MUT_EV", "/tmp/mutev")          # scratch: worktree + private copy of /verif
+OFFSET = int(os.environ.get("MUT_OFFSET", "0"))      # round 2 of the seeding: changes 1,2 are stored as <id>-3, <id>-4
 WT = EV + "/repo"
 VCOPY = EV + "/verif"
 GOENV = dict(os.environ, GOFLAGS="-mod=mod", GOPROXY="off", GOSUMDB="off", GOTOOLCHAIN="local")
@@ -30,14 +31,14 @@ def main():
     ids = sorted(d for d in os.listdir(SRC) if d.startswith("C") and os.path.isdir(os.path.join(SRC, d)))
     for pid in ids:
         for k in (1, 2):
-            tag = "%s-%d" % (pid, k)
+            tag = "%s-%d" % (pid, k + OFFSET)
             if ONLY and tag not in ONLY and pid not in ONLY:
                 continue
             patch = os.path.join(SRC, pid, "patch%d.diff" % k)
             demo = os.path.join(SRC, pid, "demo%d.sh" % k)
             if not os.path.exists(patch):
                 continue
-            meta = dict(property=pid, change=k, at=time.strftime("%Y-%m-%dT%H:%M:%SZ", time.gmtime()), repo_head=sh("git -C /repo rev-parse --short HEAD")[1].strip())
+            meta = dict(property=pid, change=k + OFFSET, seeding_round=1 + OFFSET // 2, at=time.strftime("%Y-%m-%dT%H:%M:%SZ", time.gmtime()), repo_head=sh("git -C /repo rev-parse --short HEAD")[1].strip())
             sh("git reset -q --hard && git clean -qfd", cwd=WT)
             rc, out = sh(["git", "apply", patch], cwd=WT)
             if rc != 0:
